@@ -1516,8 +1516,60 @@ def run_case(case):
 _UNREPRODUCED = [0]
 
 
+LEGACY_HASSEB_REPORTS = {
+    # name -> 10-byte report of the hasseb firmware (0xAA, 0x07 = DALI frame report, sn, status, length, data ...)
+    "nodata": [0xAA, 0x00, 0, 0, 0, 0, 0, 0, 0, 0], "no-answer": [0xAA, 0x07, 0, 1, 0, 0, 0, 0, 0, 0],
+    "ok": [0xAA, 0x07, 0, 2, 1, None, 0, 0, 0, 0], "invalid": [0xAA, 0x07, 0, 3, 0, 0, 0, 0, 0, 0],
+    "too-early": [0xAA, 0x07, 0, 4, 0, 0, 0, 0, 0, 0], "sniffer": [0xAA, 0x07, 0, 5, 1, 0x5A, 0, 0, 0, 0],
+    "sniffer-error": [0xAA, 0x07, 0, 6, 0, 0, 0, 0, 0, 0], "firmware": [0xAA, 0x02, 0, 1, 7, 0, 0, 0, 0, 0],
+}
+
+
+def case_legacy_hist(case):
+    """case: {"kind": "legacy-hist", "earlier": none|command|query-answered|query-unanswered, "reports": [names], "value": b}
+    The synchronous legacy hasseb driver: an earlier exchange, then a query for which the firmware delivers the listed
+    reports (and then nothing more).  send() returns what the FIRST report that ends an exchange denotes (answer,
+    framing error, no answer); reports that end nothing are passed over; when nothing ends it: no answer."""
+    env = _env()
+    gg = env["gg"]
+    r = LegacyHasseb()
+    d = r.d
+    where = "legacy-hasseb: earlier exchange %s, then QueryActualLevel with reports %r" % (case["earlier"], case["reports"])
+    earlier = {"none": None, "command": gg.Off(2), "query-answered": gg.QueryStatus(2), "query-unanswered": gg.QueryStatus(3)}[case["earlier"]]
+    if earlier is not None:
+        d.device.to_read = []
+        if case["earlier"] == "query-answered":
+            d.device.to_read = [bytes([0xAA, 0x07, 0, 2, 1, 0x04, 0, 0, 0, 0])]
+        elif case["earlier"] == "query-unanswered":
+            d.device.to_read = [bytes(LEGACY_HASSEB_REPORTS["no-answer"])]
+        out0 = _call(d.send, earlier)
+        if out0[0] != "ok":
+            return [("C18:legacy-hasseb:send-raised:%s" % type(out0[1]).__name__, "%s: the earlier exchange raised %r" % (where, out0[1]))]
+    reps = []
+    for name in case["reports"]:
+        rep = list(LEGACY_HASSEB_REPORTS[name])
+        if name == "ok":
+            rep[5] = case["value"]
+        reps.append(bytes(rep))
+    ref = {"kind": "no-answer"}
+    for rep in reps:
+        k = RW.hasseb_new_decode(rep)
+        if k["kind"] in ("backward", "framing-error", "no-answer"):
+            ref = k
+            break
+    if ref == {"kind": "no-answer"} and not any(RW.hasseb_new_decode(x)["kind"] == "no-answer" for x in reps):
+        # nothing ends the exchange: the firmware keeps delivering its idle report (a blocking read never comes back
+        # empty-handed) until the driver gives up
+        reps = reps + [bytes(LEGACY_HASSEB_REPORTS["nodata"])] * 260
+    d.device.to_read = list(reps)
+    out = _call(d.send, gg.QueryActualLevel(1))
+    return judge_decode("legacy-hasseb", ref, norm_response(out), where)
+
+
 def _run_case_once(case):
     kind = case["kind"]
+    if kind == "legacy-hist":
+        return case_legacy_hist(case)
     return {"encode": case_encode, "length": case_length, "seq": case_seq, "decode": case_decode,
             "observe": case_observe, "unipi-bus": case_unipi_bus, "seqmix": case_seqmix,
             "decode-hist": case_decode_hist, "observe-seq": case_observe_seq}[kind](case)
@@ -1629,6 +1681,14 @@ def _misc_shard(arg):
                 cases.append({"kind": "seq", "driver": driver, "start": s, "n": 700})
     elif part == "seqmix":
         cases = seqmix_cases(seed)
+    elif part == "legacy-hist":
+        import itertools
+        names = sorted(LEGACY_HASSEB_REPORTS)
+        lists = [[]] + [[a] for a in names] + [list(t) for t in itertools.product(names, repeat=2)] + \
+                [["too-early", "sniffer", "nodata", n] for n in names] + [["nodata"] * 5 + ["ok"], ["too-early"] * 199, ["nodata"] * 250]
+        for earlier in EARLIER:
+            for k, reps in enumerate(lists):
+                cases.append({"kind": "legacy-hist", "driver": "legacy-hasseb", "earlier": earlier, "reports": reps, "value": (0x33 + 7 * k + seed) % 255})
     elif part == "sendlevel":
         # what send() writes (not only construct()) for ATX / legacy hasseb
         for v in (0xFF00, 0xFF20, 0x0320, 0xFF90, 0x01FE, 0xA500, 0xA300):
@@ -1805,7 +1865,7 @@ def run(ctx):
     shards = [("enc", items[k::nsh]) for k in range(nsh)]
     ctx.pmap(_enc_shard, shards)
     parts = ["length", "seq", "seqmix", "sendlevel", "decode-tridonic", "decode-legacy-tridonic", "decode-hasseb", "decode-luba",
-             "decode-sci", "decode-small", "observe", "unipi-bus"]
+             "decode-sci", "decode-small", "observe", "unipi-bus", "legacy-hist"]
     parts += ["decode-hist-%s-%d-4" % (d, k) for d in ("luba", "sci") for k in range(4)]
     ctx.pmap(_misc_shard, [(p, ctx.seed, quick) for p in parts])
     res = ctx.result
